@@ -54,6 +54,9 @@ def gen(rng, tier):
         kind = rng.choice(["hdr", "hdr", "msg"])
         n = rng.choice([100, 500, 2000]) if kind == "hdr" else rng.choice([40, 100, 400])
         yield thr(t, n, kind)
+    # more builds in one case than a 16-bit counter could number
+    for _ in range(0 if quick else 6):
+        yield thr(16, 5000, "hdr")
     for cycle in range(1 if quick else 3):
         # approach the 32-bit boundary on the real counter
         yield "S burn %d" % (M - rng.randint(1200, 1500) - cycle)
@@ -81,7 +84,16 @@ def classify(case, impl_out):
         head, rest = impl_out.split(";", 1)
         try:
             start = int(head[6:])
-            vals = [int(x) for l in rest.split("|") for x in l.split(",") if x]
+            vals = []
+            for l in rest.split("|"):
+                xs = [int(x) for x in l.split(",") if x]
+                if w[1] == "thr":          # delta-encoded
+                    acc = 0
+                    for x in xs:
+                        acc = (acc + x) % M
+                        vals.append(acc)
+                else:
+                    vals += xs
             wrapped = any(v < start for v in vals)
         except ValueError:
             pass
